@@ -513,6 +513,18 @@ Proof. apply sort_asc_canonical, sort_asc_perm. Qed.
 Lemma an_make_idem a : an_make (an_make a) = an_make a.
 Proof. unfold an_make. rewrite map_map. apply map_ext. intros. apply sort_asc_idem. Qed.
 
+(* annotated states: a[:k] + a[k:] == a for every canonical a (= an_make raw) and every integer k *)
+Lemma an_slice_split (raw : list (list Z)) (k : Z) :
+  let a := an_make raw in
+  an_add (an_slice a None (Some k)) (an_slice a (Some k) None) = a.
+Proof.
+  intros a. unfold an_add, an_slice.
+  assert (E : an_make (py_slice a None (Some k)) ++ an_make (py_slice a (Some k) None)
+              = an_make (py_slice a None (Some k) ++ py_slice a (Some k) None))
+    by (unfold an_make; symmetry; apply map_app).
+  rewrite E, py_slice_split. unfold a. rewrite !an_make_idem. reflexivity.
+Qed.
+
 (* ---- fock basis ---- *)
 Definition nsum (l : list nat) : nat := fold_right Nat.add 0%nat l.
 
